@@ -50,6 +50,14 @@ func C12_Mutate() {
 	for i := 0; i < 4; i++ {
 		content[4*w+i] = env.NondetU8("w")
 	}
+	if env.ParamOr("windows", 1) == 2 {
+		// a second, later window: two cooperating malformed fields
+		w2 := env.Choice("window2", nwin)
+		env.Assume(w2 > w)
+		for i := 0; i < 4; i++ {
+			content[4*w2+i] = env.NondetU8("x")
+		}
+	}
 	mut := &interfaces.ConsensusRawMessage{Content: content, Block: raw.Block}
 
 	ctx := env.CancelWhenIdle()
